@@ -142,6 +142,23 @@ def semantic(ctx, N):
                 continue
             ctx.count(1, ('semantic', name))
             compare(name, got, reference(mpm, name, comps), comps)
+        # array arguments whose elements mix the zero patterns (a purely real element next to fully perturbed ones, as in a Jacobian or Hessian
+        # evaluation where only some coordinates are perturbed): the vectorised call, element by element, against the extension
+        if k % 4 == 0:
+            for name in FUNCS:
+                lo, hi = DOMAIN.get(name, (-2.0, 2.0))
+                pats = [0, None, 1, 6] if (k // 4) % 2 == 0 else [None, 0, 2, 7]
+                elems = [rand_bc(rng, lo, hi, Bicomplex, pattern=pt)[1] for pt in pats]
+                za = Bicomplex(np.array([complex(c[0], c[1]) for c in elems]), np.array([complex(c[2], c[3]) for c in elems]))
+                try:
+                    gota = getattr(za, name)()
+                    z1a, z2a = np.broadcast_to(gota.z1, (len(elems),)), np.broadcast_to(gota.z2, (len(elems),))
+                except Exception as ex:  # noqa
+                    ctx.violation('raises:%s' % name, 'Bicomplex.%s raises %r on an array argument' % (name, ex), {'function': name, 'z': elems})
+                    continue
+                for i, c in enumerate(elems):
+                    ctx.count(1, ('semantic-array', name))
+                    compare(name + ' on an array argument', Bicomplex(z1a[i], z2a[i]), reference(mpm, name, c), c, extra={'array': elems, 'element': i})
         # base points of small magnitude (1e-13 .. 1e-3, perturbations a fixed fraction of the base point): nothing in the formulas may carry an
         # absolute scale
         if k % 2 == 0:
